@@ -1,4 +1,4 @@
-import PyYetiVerif.Lemmas.UsetTranSel
+import PyYetiVerif.Lemmas.UsetTranAux
 /-!
 C18, matrix routines on the set vectors: `n2p.formtran` (model `Uset.formtranUp` / `formtran0`,
 `Model/UsetTran.lean`).  The stored matrices (`got`, `goq`, `gm`, …) are matrices over any type with `+ * 0 1`;
@@ -29,106 +29,6 @@ def TranRow (w : Nat) (t o m q s t_a q_a : List Nat) (gotM goqM : M α) (mRows :
   (∃ (i : Nat), m[i]? = some p ∧ row ∈ mRows ∧ row.length = w) ∨
   (∃ (i c : Nat), q[i]? = some p ∧ q_a[i]? = some c ∧ row = unitRow w c) ∨
   (∃ (i : Nat), s[i]? = some p ∧ row = zeroRow w)
-
-/-- a strict look-up returns one position per expanded DOF -/
-theorem mkdofpv_lengths {pmask : Nat} {tbl : List Row} {sp : SetSpec} {req : Request} {strict : Bool}
-    {pv : List Nat} {out : List (Nat × Nat)} (h : mkdofpv pmask tbl sp req strict = .ok (pv, out)) :
-    pv.length = out.length := by
-  unfold mkdofpv at h
-  cases sp with
-  | p =>
-      simp only at h
-      obtain ⟨dof, _, h⟩ := bind_ok h
-      exact (mkdofpv_spec _ _ _ _ _ h).2.1.length_eq
-  | mask mk =>
-      simp only at h
-      obtain ⟨pv', _, h⟩ := bind_ok h
-      split at h
-      · cases h
-      · obtain ⟨dof, _, h⟩ := bind_ok h
-        exact (mkdofpv_spec _ _ _ _ _ h).2.1.length_eq
-
-theorem expandRow_single (p : Nat × Nat) (h : p.2 < 10) : expandRow p = [p] := by
-  unfold expandRow digits
-  rw [digitsRev]
-  simp [h]
-
-theorem expanddof2_fixed : ∀ (l : List (Nat × Nat)), (∀ p ∈ l, p.2 ≤ 6) → l.flatMap expandRow = l
-  | [], _ => rfl
-  | p :: t, h => by
-      rw [List.flatMap_cons, expandRow_single p (by have := h p List.mem_cons_self; omega),
-        expanddof2_fixed t (fun q hq => h q (List.mem_cons_of_mem _ hq))]
-      rfl
-
-theorem expanddof_le6 {req : Request} {e : List (Nat × Nat)} (h : expanddof req = .ok e) :
-    ∀ p ∈ e, p.2 ≤ 6 := by
-  cases req with
-  | ids l g =>
-      simp only [expanddof, Except.ok.injEq] at h
-      subst h
-      intro p hp
-      unfold expanddof1 at hp
-      obtain ⟨n, _, hp⟩ := List.mem_flatMap.mp hp
-      obtain ⟨d, hd, rfl⟩ := List.mem_map.mp hp
-      cases g <;> simp at hd <;> omega
-  | rows r =>
-      simp only [expanddof, expanddof2] at h
-      split at h
-      · cases h
-      · rename_i hany
-        simp only [Except.ok.injEq] at h
-        subst h
-        intro p hp
-        by_contra hlt
-        exact hany (List.any_eq_true.mpr ⟨p, hp, by simpa using hlt⟩)
-
-/-- the DOF list a strict look-up returns is expanded already: looking it up again returns it unchanged -/
-theorem mkdofpv_rows_fixed {pmask : Nat} {tbl : List Row} {sp sp' : SetSpec} {req : Request}
-    {pv pv' : List Nat} {dof dof' : List (Nat × Nat)}
-    (h : mkdofpv pmask tbl sp req true = .ok (pv, dof))
-    (h' : mkdofpv pmask tbl sp' (.rows dof) true = .ok (pv', dof')) : dof' = dof := by
-  have hle : ∀ p ∈ dof, p.2 ≤ 6 := by
-    unfold mkdofpv at h
-    cases sp with
-    | p =>
-        simp only at h
-        obtain ⟨e, he, h⟩ := bind_ok h
-        rw [(mkdofpv_spec _ _ _ _ _ h).2.2 rfl]
-        exact expanddof_le6 he
-    | mask mk =>
-        simp only at h
-        obtain ⟨_, _, h⟩ := bind_ok h
-        split at h
-        · cases h
-        · obtain ⟨e, he, h⟩ := bind_ok h
-          rw [(mkdofpv_spec _ _ _ _ _ h).2.2 rfl]
-          exact expanddof_le6 he
-  have hex : expanddof (.rows dof) = .ok dof := by
-    simp only [expanddof, expanddof2, expanddof2_fixed dof hle]
-    rw [if_neg]
-    intro hany
-    obtain ⟨p, hp, hlt⟩ := List.any_eq_true.mp hany
-    have := hle p hp
-    simp only [decide_eq_true_eq] at hlt
-    omega
-  unfold mkdofpv at h'
-  cases sp' with
-  | p =>
-      simp only at h'
-      rw [hex] at h'
-      exact (mkdofpv_spec _ _ _ _ _ h').2.2 rfl
-  | mask mk =>
-      simp only at h'
-      obtain ⟨_, _, h'⟩ := bind_ok h'
-      split at h'
-      · cases h'
-      · rw [hex] at h'
-        exact (mkdofpv_spec _ _ _ _ _ h').2.2 rfl
-
-theorem liftE_ok {β : Type} {x : Except Err β} {v : β} (h : liftE x = .ok v) : x = .ok v := by
-  cases x with
-  | error e => cases h
-  | ok a => simp only [liftE, Except.ok.injEq] at h; rw [h]
 
 /-- **formtran, general path** (`se != 0`, some requested DOF outside the a-set): one row per requested DOF in
 request order; the row of DOF `d` is `TranRow` of a table row `p` that carries exactly `d`'s `[id, dof]`.
@@ -338,4 +238,44 @@ theorem formtran_columns_are_target_set (mk : Masks) (tbl : List Row) (got goq g
       · rw [hr, zeroRow_length]
 
 end formtran
+/-! ## non-vacuity: a table of three scalar points (b-set, o-set, q-set), `got = [[2]]`, `goq = [[3]]` -/
+
+section examples
+open PyYetiVerif.Generated.UsetMask
+set_option linter.unusedSimpArgs false
+
+def exKey (i d : Nat) : Nat := i * 10 + d
+def exMasks : Masks := Masks.ofTable mask
+def exTbl : List Row := [(1, 0, 2097154), (2, 0, 4), (3, 0, 4194304)]
+
+/-- the general path (the o-set DOF `(2, 0)` is requested): the hypotheses of `formtran_partition_identity` and
+`formtran_columns_are_target_set` hold together; row 0 is `got`/`goq` scattered, row 1 the unit vector of the b-DOF -/
+example : formtranUp (α := Int) exKey exMasks exTbl (some ⟨[[2]], 1⟩) (some ⟨[[3]], 1⟩) none (.rows [(2, 0), (1, 0)])
+      = .ok (⟨[[2, 3], [1, 0]], 2⟩, [(2, 0), (1, 0)]) ∧
+    mkdofpv exMasks.p exTbl (.mask exMasks.g) (.rows [(2, 0), (1, 0)]) true = .ok ([1, 0], [(2, 0), (1, 0)]) ∧
+    mksetpv (exTbl.map (·.2.2)) exMasks.g exMasks.a = .ok [true, false, true] ∧
+    ([1, 0] : List Nat).all (fun i => [true, false, true][i]? == some true) = false ∧
+    setPos exTbl exMasks.a exMasks.t = .ok [0] ∧ setPos exTbl exMasks.a exMasks.q = .ok [1] := by
+  simp [formtranUp, mkdofpv, mksetpv, expanddof, expanddof2, expandRow, digits, digitsRev, mkdofpvKeys, argsort,
+    lookup, searchsortedLeft, key, List.mergeSort, List.zipIdx, List.MergeSort.Internal.splitInTwo,
+    exMasks, Masks.ofTable, exTbl, mask, v_p, v_g, v_n, v_f, v_a, v_q, v_r, v_b, v_c, v_o, v_s, v_m, v_e, v_l, v_t,
+    inSet, liftE, setPos, positions, upSelect, selSet, selIn, takeIdx, matIntersect, lookupAll, iddofOf, dofRows, exKey,
+    procMset, upBlocks, eyeBlock, oBlock, scatterRows, setCols, rowsAt, unitRow, zeroRow, reorder, UpSel.sets,
+    bind, Except.bind, pure, Except.pure, Except.map, List.mapM_cons, List.mapM_nil]
+
+/-- the a-set path (only a-set DOF requested): the hypotheses of `formtran_aset_identity` hold together -/
+example : formtranUp (α := Int) exKey exMasks exTbl (some ⟨[[2]], 1⟩) (some ⟨[[3]], 1⟩) none (.rows [(3, 0), (1, 0)])
+      = .ok (⟨[[0, 1], [1, 0]], 2⟩, [(3, 0), (1, 0)]) ∧
+    mkdofpv exMasks.p exTbl (.mask exMasks.g) (.rows [(3, 0), (1, 0)]) true = .ok ([2, 0], [(3, 0), (1, 0)]) ∧
+    ([2, 0] : List Nat).all (fun i => [true, false, true][i]? == some true) = true ∧
+    mkdofpv exMasks.p exTbl (.mask exMasks.a) (.rows [(3, 0), (1, 0)]) true = .ok ([1, 0], [(3, 0), (1, 0)]) := by
+  simp [formtranUp, mkdofpv, mksetpv, expanddof, expanddof2, expandRow, digits, digitsRev, mkdofpvKeys, argsort,
+    lookup, searchsortedLeft, key, List.mergeSort, List.zipIdx, List.MergeSort.Internal.splitInTwo,
+    exMasks, Masks.ofTable, exTbl, mask, v_p, v_g, v_n, v_f, v_a, v_q, v_r, v_b, v_c, v_o, v_s, v_m, v_e, v_l, v_t,
+    inSet, liftE, setPos, positions, takeIdx, unitRow, maskSel,
+    bind, Except.bind, pure, Except.pure, Except.map, List.mapM_cons, List.mapM_nil]
+  decide
+
+end examples
+
 end PyYetiVerif.C18
